@@ -18,6 +18,7 @@ BUDGET = {'quick': 400, 'thorough': 40000}
 WALL = {'quick': 170, 'thorough': 3000}
 CHUNK = 4
 CASE_TIMEOUT = 900
+REACH_N = 40
 DET_K = 3
 SELFTEST = {'quick': 12, 'thorough': 96}
 RULE = ('case kinds (swarm-weighted): roundtrip = a Grid on random orderings/shape/dtype written with '
